@@ -95,7 +95,11 @@ func NewHarness(cfg Config) *Harness {
 	if cfg.MaxQosSet {
 		mq = cfg.MaxQos
 	}
-	return &Harness{W: NewWorld(cfg), M: NewModel(mq, cfg.Authenticator != "mockFailure"), byName: map[string]*RawClient{},
+	m := NewModel(mq, cfg.Authenticator != "mockFailure")
+	if cfg.Authenticator == SelectiveAuth {
+		m.authFn = func(user string) bool { return user != "evil" }
+	}
+	return &Harness{W: NewWorld(cfg), M: m, byName: map[string]*RawClient{},
 		localFn: map[string]*service.OnPublishFunc{}, localGot: map[string][]*refcodec.Packet{}}
 }
 
@@ -193,10 +197,11 @@ func (h *Harness) Step(a Action) []Mismatch {
 		e := exp(exps, a.Client)
 		e.Comp = "acks"
 		e.Desc = "answer to CONNECT"
-		if !m.auth {
+		if !m.authOK(a.Opts.User) {
 			e.Must = []*refcodec.Packet{{Type: refcodec.CONNACK, ReturnCode: 4}}
 			e.MustClose = true
 			nc.open = false
+			nc.will = nil
 			break
 		}
 		nc.accepted = true
